@@ -152,7 +152,7 @@ def _cases() -> List[dict]:
 
 def plan(tier: str) -> dict:
     return {
-        "runs": 20000 if tier == "quick" else 300000,
+        "runs": 20000 if tier == "quick" else 1000000,
         "budget": 150 if tier == "quick" else 900,
         "cases": _cases(),
         "chunk": 20,
